@@ -36,6 +36,7 @@ def vstructure_rules(rep, prog):
     # 1. pre-filter
     it = outer["iter"]
     ok, why = False, "outer loop does not range over np.where(<count> > 1)[0] or over all nodes"
+    unread = False
     if it == ("ext", "range", (("ext", "len", (("param", "A"),), ()),), ()):
         ok, why = True, "all nodes"
     elif it[0] == "sub" and is_const(it[2], 0) and it[1][0] == "ext" and it[1][1] == "numpy.where" and len(it[1][2]) == 1:
@@ -73,8 +74,12 @@ def vstructure_rules(rep, prog):
                 if good:
                     why = "nodes with at least two directed parents"
             except Inconclusive as e:
-                why = e.why
-    rep.check("VS.prefilter", ok, fwhere(f, outer["node"]), "candidate colliders: " + why, "collider pre-filter may drop colliders: " + why)
+                why, unread = e.why, True
+    if unread and not ok:
+        # the count could not be evaluated on the pair table: a form this rule does not read, not a wrong pre-filter
+        rep.unk("VS.prefilter", fwhere(f, outer["node"]), "collider pre-filter not read: " + why)
+    else:
+        rep.check("VS.prefilter", ok, fwhere(f, outer["node"]), "candidate colliders: " + why, "collider pre-filter may drop colliders: " + why)
     # 2. pairs of parents of c in A
     want_it = ("ext", "itertools.combinations", (("call", U + "pa", (c, ("param", "A")), (("A", ("param", "A")), ("i", c))), ("const", 2)), ())
     pa_c = want_it[2][0]
